@@ -46,8 +46,13 @@ RULES = {
     "oversized slot hold for that token and for no amount >= 0 (decided by evaluating the comparisons for the token and for 0, 1 and a "
     "large amount) - `if reservation > 0: … else: <free the slot>` frees it when an empty tensor finishes while an oversized one is "
     "still being written, and a second oversized tensor is admitted",
+    "R13": "a lazy tensor that does not cache keeps nothing: every store of a materialised tensor into a field of LazyTensor (outside the "
+    "constructor) happens only when `self.cache` holds - under a test that requires it, or after the guard clause `if not self.cache: "
+    "return …`; stored unconditionally, each tensor the writer evaluates stays alive inside its LazyTensor after its reservation was "
+    "released, so the process ends up holding the sum of all lazy initializers instead of the budget plus the largest tensor, although "
+    "the budget protocol itself is followed to the letter",
 }
-FLOORS = {"R1": 6, "R2": 3, "R3": 1, "R4": 2, "R5": 3, "R6": 1, "R7": 2, "R8": 4, "R9": 2, "R10": 6, "R11": 10, "R12": 1}
+FLOORS = {"R1": 6, "R2": 3, "R3": 1, "R4": 2, "R5": 3, "R6": 1, "R7": 2, "R8": 3, "R9": 2, "R10": 6, "R11": 10, "R12": 1, "R13": 1}
 EXPLANATION = (
     "Lock-set analysis over the external-data writer: which fields are touched under which `with`, pairing of "
     "acquire/release through try/finally, lock context of every call path from submitted functions to tensor "
@@ -616,6 +621,8 @@ def rule_r8(ctx):
              if isinstance(c.func, ast.Attribute) and c.func.attr == "_invoke_callback"]
     ctx.require(len(sites) >= 2, "callback invocations of the external-data writers not found")
     for f, c in sites:
+        if f.parent is None and ctx.repo.transparent_callers(f) is not None:
+            continue  # a private helper that exists only as a part of its callers: the invocation is examined inside each of them (E1b)
         cfg = CFG(f.node)
         if f.parent is not None:
             # worker function: the invocation lies on every path through it …
@@ -674,7 +681,15 @@ def rule_r8(ctx):
                 before = lp.body[: lp.body.index(st)] if direct else []
                 skip = any(isinstance(x, (ast.Continue, ast.Break, ast.Return)) for b in before for x in ast.walk(b))
                 whole = any(isinstance(x, ast.Attribute) and x.attr in ("_tensors", "_external_data_infos") for x in ast.walk(lp.iter))
-                ok = direct and isinstance(st, ast.Expr) and not skip and whole
+                # the statement is the call itself, or `with <guard>:` blocks (a lock, a null context) around it - nothing conditional
+                plain = isinstance(st, ast.Expr)
+                if isinstance(st, ast.With):
+                    q, plain = getattr(c, "_parent", None), True
+                    while q is not None and q is not st:
+                        if not isinstance(q, (ast.Expr, ast.With)) or (isinstance(q, ast.With) and c not in [y for b_ in q.body[:1] for y in ast.walk(b_)] and q is not st):
+                            plain = plain and isinstance(q, (ast.Expr, ast.With))
+                        q = getattr(q, "_parent", None)
+                ok = direct and plain and not skip and whole
             ctx.check("R8", f"{f.local}: the callback is invoked for every tensor of the loop", ok, f, c,
                       "the per-tensor loop can skip the progress callback (a condition, `continue` or a partial range before it)",
                       how="the invocation is an unconditional statement of a loop over the writer's tensor list, nothing skips before it")
@@ -863,7 +878,58 @@ def rule_r11(ctx):
     ctx.require(n >= 10, f"only {n} expressions with a unit found in the external-data module")
 
 
+def rule_r13(ctx):
+    k = ctx.repo.cls("onnx_ir._core:LazyTensor")
+    n = 0
+
+    def requires_cache(t, me, positive=True):
+        """The test can hold only when <me>.cache is true (positive), resp. only when it is false."""
+        if isinstance(t, ast.Attribute) and norm(t) == f"{me}.cache":
+            return positive
+        if isinstance(t, ast.UnaryOp) and isinstance(t.op, ast.Not):
+            return requires_cache(t.operand, me, not positive)
+        if isinstance(t, ast.BoolOp):
+            if isinstance(t.op, ast.And) == positive:
+                return any(requires_cache(v, me, positive) for v in t.values)
+            return all(requires_cache(v, me, positive) for v in t.values)
+        return False
+
+    for f in k.methods.values():
+        if isinstance(f.node, ast.Lambda) or f.name == "__init__" or not f.params:
+            continue
+        me = f.params[0]
+        for a in own_nodes(f.node):
+            if not (isinstance(a, ast.Assign) and any(isinstance(t, ast.Attribute) and norm(t.value) == me for t in a.targets)):
+                continue
+            if isinstance(a.value, ast.Constant):
+                continue  # clearing the field
+            n += 1
+            ok = False
+            child, par = a, getattr(a, "_parent", None)
+            while par is not None:
+                for fld in ("body", "orelse"):
+                    blk = getattr(par, fld, None)
+                    if isinstance(blk, list) and child in blk:
+                        if isinstance(par, ast.If) and requires_cache(par.test, me, fld == "body"):
+                            ok = True
+                        for prev in blk[: blk.index(child)]:
+                            if isinstance(prev, ast.If) and prev.body and isinstance(prev.body[-1], (ast.Return, ast.Raise)) and not prev.orelse \
+                                    and requires_cache(ast.UnaryOp(op=ast.Not(), operand=prev.test), me, True):
+                                ok = True
+                if par is f.node:
+                    break
+                child, par = par, getattr(par, "_parent", None)
+            ctx.check("R13", f"{f.local}: `{norm(a)[:50]}` keeps the tensor only when caching is on", ok, f, a,
+                      f"`{norm(a)[:60]}` stores what the function returned whether or not `{me}.cache` is set: a non-caching lazy tensor then holds its last materialised tensor for "
+                      "good, and a concurrent save over many lazy initializers keeps all of them alive after their reservations were released - far more than the budget plus the "
+                      "largest tensor",
+                      how="stores into fields of LazyTensor outside __init__ × tests that require self.cache (enclosing ifs, guard clauses `if not self.cache: return`)",
+                      construct="tensor kept by a non-caching LazyTensor")
+    ctx.require(n >= 1, "no store of a materialised tensor found in LazyTensor")
+
+
 def run(ctx):
+    rule_r13(ctx)
     rule_r12(ctx)
     rule_r11(ctx)
     rule_r10(ctx)
